@@ -4,6 +4,7 @@ import (
 	"encoding/json"
 	"fmt"
 	"math/rand"
+	"reflect"
 	"regexp"
 	"sort"
 	"strconv"
@@ -663,6 +664,11 @@ func (r *idxRun) runSpec(h *hspec, rng *rand.Rand) {
 			r.nameVarsPod(jobName, "ns1", retry, ix, hashes[p], names, exp, judged, p, accepted)
 		}
 	}
+	// ---- the controller creates the tasks of all indexes from ONE in-memory Job (the cached
+	// object): every index must still get its own values, and the Job must come out unchanged
+	if accepted && n >= 2 {
+		r.podsFromSharedJob(jobName, first, positions)
+	}
 	// distinct (hash, retry) => distinct names, over many indexes
 	lim := n
 	if lim > 400 {
@@ -957,6 +963,73 @@ func (r *idxRun) nameVarsPod(jobName, ns string, retry int64, ix execution.Paral
 		}
 		if got != wantV && carried {
 			c.Violate("C14", "pod-carries-index", "pod env ${%s} = %q for index %s, expected %q", v, got, showIdx(src), wantV)
+		}
+	}
+}
+
+// podsFromSharedJob: what PodTaskClient.CreateIndex does for each index of one sync — the pod
+// template is taken (shallowly converted) from the same Job object every time.  Monitors only
+// (C14 "the task created for an index receives that index's values"; the op stream of idx.pod
+// already ties NewPod to the model).
+func (r *idxRun) podsFromSharedJob(jobName string, ixs []execution.ParallelIndex, positions []int) {
+	c := r.c
+	rj := testJob(jobName, "ns1", nil)
+	cont := corev1.Container{Name: "c", Image: "img:${task.index_num}", Args: []string{"--key=${task.index_key}", "--name=${task.name}"}}
+	keys := map[string]bool{}
+	for _, p := range positions {
+		for k := range ixs[p].MatrixValues {
+			keys[k] = true
+		}
+	}
+	for _, k := range SortedKeys(keys) {
+		if strings.ContainsAny(k, "$}") {
+			return
+		}
+		cont.Env = append(cont.Env, corev1.EnvVar{Name: "M", Value: "${task.index_matrix." + k + "}"})
+	}
+	rj.Spec.Template.TaskTemplate.Pod = &execution.PodTemplateSpec{Spec: corev1.PodSpec{Containers: []corev1.Container{cont}}}
+	before := rj.DeepCopy()
+	for _, p := range positions {
+		ix := ixs[p]
+		if strings.ContainsAny(ix.IndexKey, "$}") {
+			continue
+		}
+		bad := false
+		for _, v := range ix.MatrixValues {
+			bad = bad || strings.ContainsAny(v, "$}")
+		}
+		if bad {
+			continue
+		}
+		var pod *corev1.Pod
+		out := Guard(func() string {
+			var err error
+			pod, err = podtaskexecutor.NewPod(rj, rj.Spec.Template.TaskTemplate.Pod.ConvertToCoreSpec(), tasks.TaskIndex{Retry: 0, Parallel: ix})
+			if err != nil {
+				return "err"
+			}
+			return "ok"
+		})
+		c.Count("op.pod-shared-job")
+		if out != "ok" || pod == nil {
+			continue
+		}
+		wantNum, wantKey := "", ix.IndexKey
+		if ix.IndexNumber != nil {
+			wantNum = strconv.FormatInt(*ix.IndexNumber, 10)
+		}
+		got := pod.Spec.Containers[0]
+		if got.Image != "img:"+wantNum || len(got.Args) != 2 || got.Args[0] != "--key="+wantKey || got.Args[1] != "--name="+pod.Name {
+			c.Violate("C14", "pod-carries-index", "pod %s created for index %s from a shared Job object received image %q args %q", pod.Name, showIdx(ix), got.Image, got.Args)
+		}
+		for i, k := range SortedKeys(keys) {
+			if i < len(got.Env) && got.Env[i].Value != ix.MatrixValues[k] {
+				c.Violate("C14", "pod-carries-index", "pod %s for index %s: ${task.index_matrix.%s} = %q", pod.Name, showIdx(ix), k, got.Env[i].Value)
+			}
+		}
+		if !reflect.DeepEqual(before, rj) {
+			c.Violate("C14", "pod-carries-index", "NewPod for index %s modified the Job object it was given (the pod template is shared by all tasks of the Job)", showIdx(ix))
+			rj = before.DeepCopy()
 		}
 	}
 }
